@@ -13,7 +13,8 @@ independent reader that the printed text of C07 is judged by, and the reference 
 
 ```
 structure FunDef  { params : List Sym, ret : Ty, body : Term }
-structure SEnv    { logic : String, sorts : List (String × Nat), funs : List Sym, defs : List (String × FunDef) }
+structure SEnv    { logic : String, sorts : List (String × Nat), funs : List Sym, defs : List (String × FunDef),
+                    aliases : List (String × Ty) }   -- all fields have defaults; aliases: parameterless define-sort
 SEnv.realsOnly    : SEnv → Bool          -- numerals are Real (logics with Reals and without Ints: QF_LRA, LRA, QF_RDL, QF_NRA, …)
 Ty.pyName         : Ty → String          -- the Core's name of a sort instance: custom "Pair{Int, BV{8}}"
 sortStd           : SEnv → Sexp → Except String Ty
@@ -50,7 +51,8 @@ envOf             : (logic : String) → Term → SEnv                 -- free s
 * **Strictly sorted**: every application is checked against the rank of the symbol in the theory files (`/` takes Reals,
   `div` takes Ints, no implicit Int→Real coercion, bit-vector widths must agree, `(_ extract i j)` needs `m > i ≥ j`, …).
   Ill-sorted or undeclared ⇒ error. Not covered (error `unsupported`): `mod abs to_int is_int`, `int2bv`, `match`,
-  datatypes, regular expressions and the string operators without a counterpart in `Op`, `define-sort`, recursive functions.
+  datatypes, regular expressions and the string operators without a counterpart in `Op`, `define-sort` with parameters,
+  recursive functions.
 * **String literals** denote the string constant of the Strings theory: only printable ASCII characters may occur, `\\u{…}` and
   `\\ud₃d₂d₁d₀` are escape sequences (`strConstOf`).
 * `(as const (Array σ τ)) v` is the `arrayValue` node with no assignment; a `store` is always an `arrayStore` node.
@@ -82,6 +84,8 @@ structure SEnv where
   funs : List Sym := []
   /-- defined function symbols -/
   defs : List (String × FunDef) := []
+  /-- sort abbreviations introduced by the parameterless `(define-sort S () σ)` -/
+  aliases : List (String × Ty) := []
   deriving Repr, Inhabited
 
 /-- logics whose only arithmetic sort is Real: there a numeral denotes a Real -/
@@ -109,6 +113,7 @@ def theorySymbols : List String :=
 def SEnv.lookupFun (env : SEnv) (n : String) : Option Sym := env.funs.find? (fun s => s.name == n)
 def SEnv.lookupDef (env : SEnv) (n : String) : Option FunDef := (env.defs.find? (fun d => d.1 == n)).map (·.2)
 def SEnv.lookupSort (env : SEnv) (n : String) : Option Nat := (env.sorts.find? (fun d => d.1 == n)).map (·.2)
+def SEnv.lookupAlias (env : SEnv) (n : String) : Option Ty := (env.aliases.find? (fun d => d.1 == n)).map (·.2)
 
 /-! ## sorts -/
 
@@ -123,7 +128,10 @@ def sortStd (env : SEnv) : Sexp → Except String Ty
       else match env.lookupSort n with
         | some 0 => .ok (.custom n)
         | some _ => .error ("sort symbol used with wrong arity: " ++ n)
-        | none => .error ("undeclared sort: " ++ n)
+        | none =>
+          match env.lookupAlias n with
+          | some ty => .ok ty
+          | none => .error ("undeclared sort: " ++ n)
   | .str _ => .error "sort expected"
   | .list [.atom "_", .atom b, .atom w] =>
     if symName? b == some "BitVec" then
@@ -717,95 +725,122 @@ def levels? : List Sexp → Option Nat
   | [.atom n] => numeral? n
   | _ => none
 
+def stepSetLogic (st : StdState) : List Sexp → Except String StdState
+  | [.atom l] =>
+    if st.logicSet then .error "set-logic twice"
+    else match symName? l with
+      | some n => .ok { st with env := { st.env with logic := n }, logicSet := true }
+      | none => .error "set-logic: symbol expected"
+  | _ => .error "ill-formed set-logic"
+
+def declareSortIn (st : StdState) (n : String) (ar : Nat) : Except String StdState :=
+  if predefinedSorts.contains n || (st.env.lookupSort n).isSome || (st.env.lookupAlias n).isSome then
+    .error ("sort declared twice: " ++ n)
+  else .ok { st with env := { st.env with sorts := (n, ar) :: st.env.sorts } }
+
+/-- `(define-sort S () σ)` (only the parameterless form) -/
+def stepDefineSort (st : StdState) : List Sexp → Except String StdState
+  | [.atom s, .list [], body] =>
+    match symName? s with
+    | none => .error "ill-formed define-sort"
+    | some n =>
+      if predefinedSorts.contains n || (st.env.lookupSort n).isSome || (st.env.lookupAlias n).isSome then
+        .error ("sort declared twice: " ++ n)
+      else match sortStd st.env body with
+        | .ok ty => .ok { st with env := { st.env with aliases := (n, ty) :: st.env.aliases } }
+        | .error e => .error e
+  | [.atom _, .list (_ :: _), _] => .error "unsupported: define-sort with parameters"
+  | _ => .error "ill-formed define-sort"
+
+def stepDeclareSort (st : StdState) : List Sexp → Except String StdState
+  | [.atom s, .atom k] =>
+    match symName? s, numeral? k with
+    | some n, some ar => declareSortIn st n ar
+    | _, _ => .error "ill-formed declare-sort"
+  | [.atom s] =>
+    match symName? s with
+    | some n => declareSortIn st n 0
+    | none => .error "ill-formed declare-sort"
+  | _ => .error "ill-formed declare-sort"
+
+/-- declare the function symbol `n` with parameter sorts `ps` and result sort `r` -/
+def declareSymIn (st : StdState) (n : String) (ps : List Sexp) (r : Sexp) : Except String StdState :=
+  if st.env.nameTaken n then .error ("symbol declared twice or predefined: " ++ n)
+  else match sortStdList st.env ps, sortStd st.env r with
+    | .ok ptys, .ok rty => .ok { st with env := { st.env with funs := ⟨n, ptys, rty⟩ :: st.env.funs } }
+    | .error e, _ => .error e
+    | _, .error e => .error e
+
+def stepDeclareFun (st : StdState) : List Sexp → Except String StdState
+  | [.atom f, .list ps, r] =>
+    match symName? f with
+    | some n => declareSymIn st n ps r
+    | none => .error "ill-formed declare-fun"
+  | _ => .error "ill-formed declare-fun"
+
+def stepDeclareConst (st : StdState) : List Sexp → Except String StdState
+  | [.atom f, r] =>
+    match symName? f with
+    | some n => declareSymIn st n [] r
+    | none => .error "ill-formed declare-const"
+  | _ => .error "ill-formed declare-const"
+
+def stepDefineFun (st : StdState) : List Sexp → Except String StdState
+  | [.atom f, .list ps, r, body] =>
+    match symName? f with
+    | none => .error "ill-formed define-fun"
+    | some n =>
+      if st.env.nameTaken n then .error ("symbol declared twice or predefined: " ++ n)
+      else match rdSortedVars st.env ps, sortStd st.env r with
+        | .ok params, .ok rty =>
+          if !distinctNames (params.map (·.name)) then .error "define-fun: parameter named twice"
+          else match readStdTy st.env params body with
+            | .ok (t, ty) =>
+              if ty == rty then .ok { st with env := { st.env with defs := (n, ⟨params, rty, t⟩) :: st.env.defs } }
+              else .error "define-fun: body has a different sort"
+            | .error e => .error e
+        | .error e, _ => .error e
+        | _, .error e => .error e
+  | _ => .error "ill-formed define-fun"
+
+def stepAssert (st : StdState) : List Sexp → Except String StdState
+  | [t] =>
+    match readStdTy st.env [] t with
+    | .ok (tm, ty) =>
+      if ty == .bool then
+        match st.asserts with
+        | top :: rest => .ok { st with asserts := (tm :: top) :: rest }
+        | [] => .ok { st with asserts := [[tm]] }
+      else .error "assert: Bool term expected"
+    | .error e => .error e
+  | _ => .error "ill-formed assert"
+
+/-- commands whose arguments are terms that must be well-sorted (`get-value`, `check-sat-assuming`) -/
+def stepTerms (st : StdState) (boolOnly : Bool) (name : String) : List Sexp → Except String StdState
+  | [.list ts] =>
+    match rdList st.env [] ts with
+    | .ok as => if !boolOnly || allTy as .bool then .ok st else .error (name ++ ": Bool terms expected")
+    | .error e => .error e
+  | _ => .error ("ill-formed " ++ name)
+
+def noArgCommands : List String :=
+  ["check-sat", "get-model", "get-assertions", "get-unsat-core", "get-proof", "get-assignment", "get-unsat-assumptions", "exit"]
+def ignoredCommands : List String := ["set-option", "set-info", "get-info", "get-option", "echo"]
+
 /-- one command in a state -/
 def stepStd (st : StdState) (cmd : Sexp) : Except String StdState :=
   match cmd with
   | .list (.atom c :: args) =>
-    if c == "set-logic" then
-      match args with
-      | [.atom l] =>
-        if st.logicSet then .error "set-logic twice"
-        else match symName? l with
-          | some n => .ok { st with env := { st.env with logic := n }, logicSet := true }
-          | none => .error "set-logic: symbol expected"
-      | _ => .error "ill-formed set-logic"
-    else if c == "set-option" || c == "set-info" || c == "get-info" || c == "get-option" || c == "echo" then .ok st
-    else if c == "check-sat" || c == "get-model" || c == "get-assertions" || c == "get-unsat-core" || c == "get-proof"
-         || c == "get-assignment" || c == "get-unsat-assumptions" || c == "exit" then
-      (if args.isEmpty then .ok st else .error (c ++ " takes no argument"))
-    else if c == "declare-sort" then
-      match args with
-      | [.atom s, .atom k] =>
-        match symName? s, numeral? k with
-        | some n, some ar =>
-          if predefinedSorts.contains n || (st.env.lookupSort n).isSome then .error ("sort declared twice: " ++ n)
-          else .ok { st with env := { st.env with sorts := (n, ar) :: st.env.sorts } }
-        | _, _ => .error "ill-formed declare-sort"
-      | [.atom s] =>
-        match symName? s with
-        | some n =>
-          if predefinedSorts.contains n || (st.env.lookupSort n).isSome then .error ("sort declared twice: " ++ n)
-          else .ok { st with env := { st.env with sorts := (n, 0) :: st.env.sorts } }
-        | none => .error "ill-formed declare-sort"
-      | _ => .error "ill-formed declare-sort"
-    else if c == "declare-fun" || c == "declare-const" then
-      let parts : Option (String × List Sexp × Sexp) :=
-        match c, args with
-        | "declare-fun", [.atom f, .list ps, r] => (symName? f).map (fun n => (n, ps, r))
-        | "declare-const", [.atom f, r] => (symName? f).map (fun n => (n, [], r))
-        | _, _ => none
-      match parts with
-      | none => .error ("ill-formed " ++ c)
-      | some (n, ps, r) =>
-        if st.env.nameTaken n then .error ("symbol declared twice or predefined: " ++ n)
-        else match sortStdList st.env ps, sortStd st.env r with
-          | .ok ptys, .ok rty => .ok { st with env := { st.env with funs := ⟨n, ptys, rty⟩ :: st.env.funs } }
-          | .error e, _ => .error e
-          | _, .error e => .error e
-    else if c == "define-fun" then
-      match args with
-      | [.atom f, .list ps, r, body] =>
-        match symName? f with
-        | none => .error "ill-formed define-fun"
-        | some n =>
-          if st.env.nameTaken n then .error ("symbol declared twice or predefined: " ++ n)
-          else match rdSortedVars st.env ps, sortStd st.env r with
-            | .ok params, .ok rty =>
-              if !distinctNames (params.map (·.name)) then .error "define-fun: parameter named twice"
-              else match readStdTy st.env params body with
-                | .ok (t, ty) =>
-                  if ty == rty then .ok { st with env := { st.env with defs := (n, ⟨params, rty, t⟩) :: st.env.defs } }
-                  else .error "define-fun: body has a different sort"
-                | .error e => .error e
-            | .error e, _ => .error e
-            | _, .error e => .error e
-      | _ => .error "ill-formed define-fun"
-    else if c == "assert" then
-      match args with
-      | [t] =>
-        match readStdTy st.env [] t with
-        | .ok (tm, ty) =>
-          if ty == .bool then
-            match st.asserts with
-            | top :: rest => .ok { st with asserts := (tm :: top) :: rest }
-            | [] => .ok { st with asserts := [[tm]] }
-          else .error "assert: Bool term expected"
-        | .error e => .error e
-      | _ => .error "ill-formed assert"
-    else if c == "get-value" then
-      match args with
-      | [.list ts] =>
-        match rdList st.env [] ts with
-        | .ok _ => .ok st
-        | .error e => .error e
-      | _ => .error "ill-formed get-value"
-    else if c == "check-sat-assuming" then
-      match args with
-      | [.list ts] =>
-        match rdList st.env [] ts with
-        | .ok as => if allTy as .bool then .ok st else .error "check-sat-assuming: Bool terms expected"
-        | .error e => .error e
-      | _ => .error "ill-formed check-sat-assuming"
+    if c == "set-logic" then stepSetLogic st args
+    else if c == "declare-sort" then stepDeclareSort st args
+    else if c == "declare-fun" then stepDeclareFun st args
+    else if c == "declare-const" then stepDeclareConst st args
+    else if c == "define-fun" then stepDefineFun st args
+    else if c == "define-sort" then stepDefineSort st args
+    else if c == "assert" then stepAssert st args
+    else if c == "check-sat" then (if args.isEmpty then .ok st else .error "check-sat takes no argument")
+    else if c == "get-value" then stepTerms st false c args
+    else if c == "check-sat-assuming" then stepTerms st true c args
     else if c == "push" then
       match levels? args with
       | some n => .ok (pushN st n)
@@ -817,6 +852,8 @@ def stepStd (st : StdState) (cmd : Sexp) : Except String StdState :=
     else if c == "reset-assertions" then
       .ok { st with env := { logic := st.env.logic }, saved := [], asserts := [[]] }
     else if c == "reset" then .ok StdState.init
+    else if ignoredCommands.contains c then .ok st
+    else if noArgCommands.contains c then (if args.isEmpty then .ok st else .error (c ++ " takes no argument"))
     else .error ("unsupported command: " ++ c)
   | _ => .error "command expected"
 
